@@ -19,6 +19,11 @@
                        (pages of the huge bin: block size above the largest class)
     PageHeap           every page of the heap's queues names this heap
     PageCounts         used <= capacity <= reserved, used + free + local_free = capacity
+    FullPagesAreFull   when the heap's delayed-free list is empty (dlempty), a page in the FULL queue has no block on its free / local-free list:
+                       a block that comes back to a full page (freed by the owner, or by another thread -- the first such free goes through the
+                       heap's delayed list) takes the page out of the FULL queue, otherwise its free blocks are never found again (C08: remotely
+                       freed memory is not lost).  (While the delayed block is still pending, a heap walk or collect may already have moved later
+                       remote frees of that page to its free list.)
     LiveAccounted      used - thread_free = number of blocks the program holds in the page (no pending work in a quiescent heap)
     AlignedFlag        a page that holds an interior (over-aligned) pointer of the program has has_aligned set
     PageCount          heap.page_count = number of pages in all queues
@@ -47,6 +52,7 @@ HeapFail(h) ==
   ELSE IF \E x \in allp : IF P(x).full THEN x[1] # h.full ELSE (x[1] = h.full \/ x[1] # P(x).binof) THEN "PageInRightQueue"
   ELSE IF \E x \in allp : P(x).heap # 1 THEN "PageHeap"
   ELSE IF \E x \in allp : ~(P(x).used <= P(x).cap /\ P(x).cap <= P(x).res /\ P(x).used + P(x).nfree = P(x).cap) THEN "PageCounts"
+  ELSE IF h.dlempty /\ (\E x \in allp : x[1] = h.full /\ P(x).nfree > 0) THEN "FullPagesAreFull"
   ELSE IF h.quiet /\ (\E x \in allp : P(x).used - P(x).ntf # P(x).live) THEN "LiveAccounted"
   ELSE IF \E x \in allp : P(x).interior > 0 /\ ~P(x).aligned THEN "AlignedFlag"
   ELSE IF h.npages # SumLen(qs, 1) THEN "PageCount"
